@@ -578,6 +578,59 @@ func init() {
 					c.addAt(Violated, s.key(), pos, "the adapter declares a block fallback option but the blocked branch never consults it")
 					continue
 				}
+				// gin runs the remaining handlers of the chain after a middleware returns unless the context was aborted:
+				// returning from the blocked branch is not enough, every path through it must abort (or hand over to the fallback)
+				if strings.HasSuffix(s.pkg.PkgPath, "/adapters/gin") || strings.HasSuffix(s.pkg.Dir, "/adapters/gin") {
+					stops := func(n ast.Node) bool {
+						found := false
+						ast.Inspect(n, func(x ast.Node) bool {
+							call, ok := x.(*ast.CallExpr)
+							if !ok {
+								return true
+							}
+							if se, ok := call.Fun.(*ast.SelectorExpr); ok {
+								if sel := info.Selections[se]; sel != nil {
+									if v, ok := sel.Obj().(*types.Var); ok && fb[v] {
+										found = true // custom fallback, documented to abort
+									}
+									if fn, ok := sel.Obj().(*types.Func); ok && strings.HasPrefix(fn.Name(), "Abort") {
+										found = true
+									}
+								}
+							}
+							return true
+						})
+						return found
+					}
+					seenB := map[*cfg.Block]bool{}
+					leak := ""
+					var walk func(b *cfg.Block)
+					walk = func(b *cfg.Block) {
+						if seenB[b] || leak != "" {
+							return
+						}
+						seenB[b] = true
+						for _, n := range b.Nodes {
+							if stops(n) {
+								return
+							}
+						}
+						if len(b.Succs) == 0 {
+							leak = s.prog.nodePos(lastNodeOr(b, s.fnNode))
+							return
+						}
+						for _, sc := range b.Succs {
+							walk(sc)
+						}
+					}
+					for _, b := range sp.blocked {
+						walk(b)
+					}
+					if leak != "" {
+						c.addAt(Violated, s.key(), pos, "gin: a path through the blocked branch returns at %s without c.Abort*(...) or the fallback: gin then runs the wrapped handler for a request that was rejected", leak)
+						continue
+					}
+				}
 				c.addAt(Holds, s.key(), pos, "blocked branch returns without handler call or entry use (fallback consulted: %v)", usesFallback)
 			}
 		},
